@@ -222,5 +222,6 @@ pub fn property() -> Property {
             direct: None,
         }],
         assumptions: &[],
+        enumerate: None,
     }
 }
